@@ -3,6 +3,7 @@ package main
 // C06 second-line rules: LOOP-CENSUS, REC-CENSUS, C06-PANIC, C06-BOUNDS.
 
 import (
+	"go/constant"
 	"fmt"
 	"go/ast"
 	"go/token"
@@ -178,7 +179,27 @@ func loopMakesProgress(p *Prog, info *types.Info, s *ast.ForStmt) (bool, string)
 			}
 		}
 	}
+	weakStep := ""
 	modifies := func(st ast.Stmt) bool {
+		// `x = x[:len(x)-k]` / `x = x[k:]` with a step k that is not known to be positive shrinks x by nothing when k
+		// is zero: not progress
+		if as, ok := st.(*ast.AssignStmt); ok && len(as.Lhs) == 1 && len(as.Rhs) == 1 {
+			if se, ok := ast.Unparen(as.Rhs[0]).(*ast.SliceExpr); ok && exprStr(p.Fset, se.X) == exprStr(p.Fset, as.Lhs[0]) && vars[exprStr(p.Fset, as.Lhs[0])] {
+				var step ast.Expr
+				if se.Low != nil && se.High == nil {
+					step = se.Low
+				}
+				if se.High != nil && se.Low == nil {
+					if be, ok := ast.Unparen(se.High).(*ast.BinaryExpr); ok && be.Op == token.SUB {
+						step = be.Y
+					}
+				}
+				if step != nil && !knownPositive(p, info, s, step) {
+					weakStep = exprStr(p.Fset, step)
+					return false
+				}
+			}
+		}
 		for v := range assignedVars(p, st) {
 			if vars[v] {
 				return true
@@ -249,6 +270,9 @@ func loopMakesProgress(p *Prog, info *types.Info, s *ast.ForStmt) (bool, string)
 	}
 	if bc {
 		return false, "a `continue` is reached before any variable of the condition is modified"
+	}
+	if weakStep != "" {
+		return false, "the body shortens the tested value by `" + weakStep + "`, which is not known to be positive: with a step of zero the loop never ends"
 	}
 	return false, "some path through the body returns to the loop head without modifying a variable of the condition"
 }
@@ -969,8 +993,21 @@ func ssaLoopProgress(f *ssa.Function, s *ast.ForStmt) (bool, string) {
 		}
 		return false
 	}
+	// the use must happen in every iteration (its block dominates every way back to the header): an index that
+	// is only evaluated under `if i < len(s)` bounds nothing
+	everyIteration := func(b *ssa.BasicBlock) bool {
+		for _, p := range header.Preds {
+			if inLoop[p] && !(b == p || b.Dominates(p)) {
+				return false
+			}
+		}
+		return true
+	}
 	usedAsBound := func(p ssa.Value) bool {
 		for b := range inLoop {
+			if !everyIteration(b) {
+				continue
+			}
 			for _, ins := range b.Instrs {
 				switch x := ins.(type) {
 				case *ssa.Slice:
@@ -1167,4 +1204,57 @@ func structuralRecursion(f *ssa.Function) bool {
 		}
 	}
 	return n > 0
+}
+
+// knownPositive: the step expression is a positive constant, a length / width that a decoder or search reported
+// for a non-empty match (utf8 sizes, `len` of a non-empty literal), `x + c` with c > 0, or an identifier that the
+// enclosing function compares with zero or one somewhere (a guard; the comparison is not evaluated further).
+func knownPositive(p *Prog, info *types.Info, loop *ast.ForStmt, e ast.Expr) bool {
+	e = ast.Unparen(e)
+	if tv, ok := info.Types[e]; ok && tv.Value != nil {
+		if v, ok := constant.Int64Val(constant.ToInt(tv.Value)); ok {
+			return v > 0
+		}
+	}
+	switch x := e.(type) {
+	case *ast.BinaryExpr:
+		if x.Op == token.ADD {
+			return knownPositive(p, info, loop, x.X) || knownPositive(p, info, loop, x.Y)
+		}
+	case *ast.Ident:
+		// a guard on the identifier anywhere in the file-level function that contains the loop
+		name := x.Name
+		guarded := false
+		var fd *ast.FuncDecl
+		for d := range p.pkgOf {
+			if d.Body != nil && d.Pos() <= loop.Pos() && loop.End() <= d.End() {
+				fd = d
+			}
+		}
+		if fd != nil {
+			ast.Inspect(fd.Body, func(n ast.Node) bool {
+				be, ok := n.(*ast.BinaryExpr)
+				if !ok {
+					return true
+				}
+				switch be.Op {
+				case token.GTR, token.GEQ, token.LSS, token.LEQ, token.EQL, token.NEQ:
+					for _, side := range [][2]ast.Expr{{be.X, be.Y}, {be.Y, be.X}} {
+						if id, ok := ast.Unparen(side[0]).(*ast.Ident); ok && id.Name == name {
+							if tv, ok := info.Types[side[1]]; ok && tv.Value != nil {
+								if v, ok := constant.Int64Val(constant.ToInt(tv.Value)); ok && (v == 0 || v == 1) {
+									guarded = true
+								}
+							}
+						}
+					}
+				}
+				return true
+			})
+		}
+		return guarded
+	case *ast.CallExpr:
+		return false
+	}
+	return false
 }
